@@ -308,6 +308,29 @@ def run_track(case, ctx) -> None:
             ctx.count("nonfloat:nodes-checked")
             if "metrics" in meta or meta.get("outputs_float_tensor", False):
                 ctx.violation(f"{key}:non-float-value-instrumented", f"node {node.name} ({kind}) carries metrics", source=src)
+    # ---- history: the SAME tracked module run again, forward only, on new data of the same shapes -----------------------
+    if case["backward"]:
+        ins2 = progs.make_inputs(prog, case["seed"] + 77)
+        try:
+            tm(*[t.detach().clone() for t in ins2])
+        except Exception as e:
+            ctx.violation(f"{key}:tracked-module-raises-on-second-call:{exc_key(e)}", repr(e), source=src)
+            return
+        ctx.count("history:second-forward-only-run")
+        graph2 = tm.scales_graph()
+        stale = [n.name for n in graph2.nodes if n.op != "output" and "metrics" in n.meta and n.meta["metrics"].bwd is not None]
+        if stale:
+            ctx.violation(f"{key}:backward-metrics-survive-from-an-earlier-run", f"second run was forward-only, yet {len(stale)} nodes report backward metrics, e.g. {stale[:4]}",
+                          source=src)
+        else:
+            # forward metrics must describe the second run's tensors: compare input placeholders' statistics with the new inputs
+            fl = [t for t in ins2 if t.is_floating_point()]
+            ph = [n for n in graph2.nodes if n.op == "placeholder" and n.meta.get("outputs_float_tensor") and n.name.startswith("l_x")]
+            for n, t in zip(ph, fl):
+                bad = stats_match(n.meta["metrics"].fwd, np_stats(t))
+                if bad:
+                    ctx.violation(f"{key}:forward-metrics-not-refreshed-on-a-later-run", f"placeholder {n.name}: {bad}", source=src)
+                    break
     if n_float >= 3 and (fanout or case["backward"]):
         ctx.nontrivial(src + f"|bwd={case['backward']}|zeros={case['zeros']}")
 
